@@ -230,20 +230,10 @@ pub fn mutants(base: &ExecDoc, sch: &Sch) -> Vec<(&'static str, String, ExecDoc)
         ("frag.type_exists", "inline-on-unknown-type", Box::new(|_, _| Some(Sel::Inline { p: p0(), cond: Some(nm("Nope")), dirs: vec![], sel: selset(vec![typename()]) }))),
         ("frag.composite", "inline-on-enum", Box::new(|_, _| Some(Sel::Inline { p: p0(), cond: Some(nm("Kind")), dirs: vec![], sel: selset(vec![typename()]) }))),
         ("frag.composite", "inline-on-input", Box::new(|_, _| Some(Sel::Inline { p: p0(), cond: Some(nm("Filter")), dirs: vec![], sel: selset(vec![typename()]) }))),
-        (
-            "spread.possible",
-            "disjoint-inline",
-            Box::new(|ctx, sch| {
-                // a composite type that shares no possible type with the parent
-                let mine = sch.possible_types(ctx.ty);
-                sch.order.iter().find(|n| sch.is_composite(n) && !sch.possible_types(n).is_empty() && !sch.possible_types(n).iter().any(|t| mine.contains(t))).map(|n| Sel::Inline {
-                    p: p0(),
-                    cond: Some(nm(n)),
-                    dirs: vec![],
-                    sel: selset(vec![typename()]),
-                })
-            }),
-        ),
+        // a composite type of each kind (object, interface, union) that shares no possible type with the parent
+        ("spread.possible", "disjoint-inline-object", Box::new(|ctx, sch| disjoint_of_kind(sch, ctx.ty, TsKind::Object).map(|n| Sel::Inline { p: p0(), cond: Some(nm(&n)), dirs: vec![], sel: selset(vec![typename()]) }))),
+        ("spread.possible", "disjoint-inline-interface", Box::new(|ctx, sch| disjoint_of_kind(sch, ctx.ty, TsKind::Interface).map(|n| Sel::Inline { p: p0(), cond: Some(nm(&n)), dirs: vec![], sel: selset(vec![typename()]) }))),
+        ("spread.possible", "disjoint-inline-union", Box::new(|ctx, sch| disjoint_of_kind(sch, ctx.ty, TsKind::Union).map(|n| Sel::Inline { p: p0(), cond: Some(nm(&n)), dirs: vec![], sel: selset(vec![typename()]) }))),
         ("dir.defined", "unknown-directive-on-field", Box::new(|_, _| Some(Sel::Field { alias: Some(nm("zz1")), name: nm("__typename"), args: None, dirs: vec![dir("nope", vec![])], sel: None }))),
         ("dir.location", "query-directive-on-field", Box::new(|_, _| Some(Sel::Field { alias: Some(nm("zz2")), name: nm("__typename"), args: None, dirs: vec![dir("onlyq", vec![])], sel: None }))),
         ("dir.location", "deprecated-on-field", Box::new(|_, _| Some(Sel::Field { alias: Some(nm("zz3")), name: nm("__typename"), args: None, dirs: vec![dir("deprecated", vec![])], sel: None }))),
@@ -685,6 +675,7 @@ pub fn mutants(base: &ExecDoc, sch: &Sch) -> Vec<(&'static str, String, ExecDoc)
         );
     }
     // impossible named spread: a fragment on a disjoint type spread at each selection set
+    for want_kind in [TsKind::Object, TsKind::Interface, TsKind::Union] {
     add(
         "spread.possible",
         kth(base, |d, k| {
@@ -694,7 +685,8 @@ pub fn mutants(base: &ExecDoc, sch: &Sch) -> Vec<(&'static str, String, ExecDoc)
             for_each_selset(d, sch, &mut |sel, ctx| {
                 if n == k {
                     let mine = sch.possible_types(ctx.ty);
-                    if let Some(t) = sch.order.iter().find(|t| sch.is_composite(t) && !sch.possible_types(t).is_empty() && !sch.possible_types(t).iter().any(|x| mine.contains(x))) {
+                    let _ = &mine;
+                    if let Some(t) = disjoint_of_kind(sch, ctx.ty, want_kind).as_ref() {
                         sel.items.push(Sel::Spread { p: p0(), name: nm("Disjoint"), dirs: vec![] });
                         cond = Some(t.clone());
                         res = Some(format!("named-spread:{:?}-in-{:?}@{}", sch.kind(t).unwrap(), sch.kind(ctx.ty).unwrap_or(TsKind::Object), ctx_tag(ctx)));
@@ -714,7 +706,14 @@ pub fn mutants(base: &ExecDoc, sch: &Sch) -> Vec<(&'static str, String, ExecDoc)
         .filter(|(t, _)| t != "skip")
         .collect(),
     );
+    }
     out
+}
+
+/// the first type of the given kind (in schema order) whose possible types are disjoint from those of `ty`
+fn disjoint_of_kind(sch: &Sch, ty: &str, kind: TsKind) -> Option<String> {
+    let mine = sch.possible_types(ty);
+    sch.order.iter().find(|n| sch.kind(n) == Some(kind) && !sch.possible_types(n).is_empty() && !sch.possible_types(n).iter().any(|t| mine.contains(t))).cloned()
 }
 
 fn replace_base(t: &Ty, name: &str) -> Ty {
